@@ -172,6 +172,10 @@ EXTRA_PROGRAMS: Dict[str, Dict[str, Any]] = {
                                         "message_defs": {"IN1": {"id": 4111, "fields": {"a": "int32"}},
                                                          "MS1": {"id": 4112, "fields": {**{f"m{i}": f"{t}[N_MASK]" for i, t in enumerate(defx.NATIVE_NAMES)},
                                                                                         "s": "ST1[ONE]", "k": "IN1[1]"}}}}},
+    # lengths given by expressions whose value is a float with an integral value (true division)
+    "float-valued-lengths": {"root.yaml": {"constants": {"N_SAMPLES": 16, "N_HALF": "N_SAMPLES / 2", "N_Q": "N_SAMPLES / 4.0"},
+                                           "struct_defs": {"FV": {"fields": {"a": "int16[N_HALF]", "b": "double[N_SAMPLES / 8]"}}},
+                                           "message_defs": {"FM": {"id": 4113, "fields": {"v": "FV[N_Q]", "c": "char[N_SAMPLES / 2]", "d": "int32[N_HALF]"}}}}},
     "nested-depth": {"root.yaml": {"struct_defs": {"L1": {"fields": {"a": "int32"}}, "L2": {"fields": {"l": "L1[2]", "b": "int32"}}, "L3": {"fields": {"l": "L2[2]", "c": "int32"}}},
                                    "message_defs": {"MS": {"id": 4104, "fields": {"l": "L3[2]", "m": "L1"}}}}},
     "imports-chain": {"root.yaml": {"imports": ["a.yaml"], "message_defs": {"MS": {"id": 4105, "fields": {"s": "SB", "t": "ALB"}}}},
